@@ -68,7 +68,7 @@ struct HElem : Profile {
     std::vector<std::string> required_probes() const override
     {
         return {"promoted-by-write", "promoted-by-seek", "linked-multi-table", "hole-read", "gap-after-restart",
-                "external-io", "two-aids-same-elem", "restart"};
+                "external-io", "two-aids-same-elem", "restart", "hlconvert-before-first-write"};
     }
 
     static uint16 tag_of(int e) { return (uint16)(8000 + (e & 1)); }
@@ -536,6 +536,14 @@ struct HElem : Profile {
                                 // at once so that every later op sees an element with data.
                                 int64_t              ilen = 1 + modn(o.arg(1) + o.arg(3), 4);
                                 std::vector<uint8_t> d    = data_block((uint64_t)(o.arg(1) * 131 + o.arg(3) + 7), (size_t)ilen);
+                                if (modn(o.arg(1) * 3 + o.arg(3), 5) == 0 && !aliased(s, f, e)) {
+                                    // now and then the new element is promoted to linked blocks before it holds a byte
+                                    int bl = 1 + modn(o.arg(3), 9), nb = 1 + modn(o.arg(1), 3);
+                                    if (HLconvert(aid, bl, nb) == FAIL)
+                                        ctx.fail("access-refused", "access-refused:hlconvert-new", strf("HLconvert(%s, %d, %d) on a new element failed: %s", eid(f, e).c_str(), bl, nb, herr().c_str()));
+                                    m.kind = K_LINKED;
+                                    ctx.probe("hlconvert-before-first-write");
+                                }
                                 int32                n    = Hwrite(aid, (int32)ilen, d.data());
                                 ctx.tr((uint64_t)n);
                                 if (n != (int32)ilen)
